@@ -24,22 +24,17 @@ def _path_nodes(tree, node_id):
 def _finding_of(tree, node_id):
     """the open known finding whose class the element belongs to, or None.
     KF-C13-b: an element on the path (itself or an ancestor) is a Dict/Compound field named ''.
-    KF-C13-a: a field name on the path has a backslash directly before '.' or ']', or a field name of a proper
-              ancestor ends with a backslash."""
+    KF-C13-a: the field name of a proper ancestor ends with a backslash."""
     chain = _path_nodes(tree, node_id)
     for i, (parent, child) in enumerate(chain):
         if parent["k"] not in ("d", "c"):
             continue
-        nm = child["name"]
-        if nm == "":
+        if child["name"] == "":
             return "KF-C13-b"
     for i, (parent, child) in enumerate(chain):
         if parent["k"] not in ("d", "c"):
             continue
-        nm = child["name"]
-        if "\\." in nm or "\\]" in nm:
-            return "KF-C13-a"
-        if nm.endswith("\\") and i < len(chain) - 1:
+        if child["name"].endswith("\\") and i < len(chain) - 1:
             return "KF-C13-a"
     return None
 
@@ -59,6 +54,7 @@ class C13(Property):
         "Flatland.C13.Proofs.find_fq_addressable",
         "Flatland.C13.Proofs.C13_full_fails",
         "Flatland.C13.Proofs.C13_full_fails_backslash",
+        "Flatland.C13.Proofs.C13_backslash_dot_ok",
         "Flatland.C13.Proofs.find_one_fq",
         "Flatland.C13.Proofs.fqName_injective",
         "Flatland.Path.Lemmas.tokenize_segs",
@@ -88,8 +84,12 @@ class C13(Property):
     thorough_n = 200000
     case_timeout = 120  # cases take milliseconds; the alarm only guards against a hung interpreter
 
-    def _case(self, tree, starts):
-        return {"tree": tree, "starts": starts}
+    def _case(self, tree, starts, init=None, history=None):
+        c = {"tree": tree, "starts": starts}
+        if history:
+            c["init"] = init
+            c["history"] = history
+        return c
 
     def corpus(self):
         out = []
@@ -108,11 +108,40 @@ class C13(Property):
             {"k": "c", "name": "when", "set": False, "kids": [_leaf("year"), _leaf("month"), _leaf("day")]},
         ]})
         out.append(self._case(t, [0, 7, 12, 25]))
-        # open KF-C13-a: backslash before '.'/']' in a name; a name ending in a backslash with children
+        # fixed b49b3eb: a backslash directly before '.' / ']' in a name was read back as an escape
+        tb = cm.number({"k": "d", "name": "root", "kids": [
+            _leaf("a\\.b"), _leaf("a\\]b"), _leaf("a\\\\.b"), _leaf("\\."), _leaf("\\]"), _leaf("\\.\\."),
+            {"k": "d", "name": "p\\.q", "kids": [_leaf("x\\]"), _leaf("a\\/b"), _leaf("a\\[b")]}]})
+        out.append(self._case(tb, [0, 7]))
+        # open KF-C13-a: a name ending in a backslash above other elements (the element itself is fine)
         t2 = cm.number({"k": "d", "name": "root", "kids": [
-            {"k": "d", "name": "y\\", "kids": [_leaf("z")]}, _leaf("a\\.b"), _leaf("a\\]b"),
-            _leaf("x\\"), _leaf("a\\/b"), _leaf("a\\[b"), _leaf("\\")]})
+            {"k": "d", "name": "y\\", "kids": [_leaf("z")]}, _leaf("x\\"), _leaf("\\"),
+            {"k": "l", "name": "l\\", "member": {"k": "s", "name": None}, "kids": [_leaf(None)]}]})
         out.append(self._case(t2, [0, 1]))
+        # seeded mutation C13-pop-negative-index-renumber: pop(i) with a negative i other than -1 must renumber
+        # the slots (the demo's history: pop(), append, pop(0), insert(0, ..), pop(-3), inner pop(-2))
+        tags = lambda n: {"k": "l", "name": "tags", "member": {"k": "s", "name": None}, "kids": [_leaf(None) for _ in range(n)]}
+        row_schema = {"k": "d", "name": None, "fields": [{"k": "s", "name": "k"},
+                                                         {"k": "l", "name": "tags", "member": {"k": "s", "name": None}}]}
+        row = lambda n: {"k": "d", "name": None, "kids": [_leaf("k"), tags(n)]}
+        form = cm.number({"k": "d", "name": "form", "kids": [
+            _leaf("title"), {"k": "l", "name": "rows", "member": row_schema, "kids": [row(2), row(1), row(3), row(0)]}]})
+        nxt = [cm._max_id(form) + 1]
+
+        def fresh(n):
+            r = row(n)
+            nxt[0] = cm._number_from(r, nxt[0])
+            return r
+        hist = [{"at": [1], "op": "pop", "i": -1}, {"at": [1], "op": "append", "nodes": [fresh(1)]},
+                {"at": [1], "op": "pop", "i": 0}, {"at": [1], "op": "insert", "i": 0, "nodes": [fresh(1)]},
+                {"at": [1], "op": "pop", "i": -3}, {"at": [1, 1, 1], "op": "pop", "i": -2}]
+        final = cm.simulate(form, hist)
+        ids = [n["id"] for n in cm.preorder(final)]
+        out.append(self._case(final, [0, ids[len(ids) // 2], ids[-1]], form, hist))
+        for i in (-2, -3, -4):
+            lst = cm.number({"k": "l", "name": "l", "member": {"k": "s", "name": None}, "kids": [_leaf(None) for _ in range(4)]})
+            h = [{"at": [], "op": "pop", "i": i}]
+            out.append(self._case(cm.simulate(lst, h), [0], lst, h))
         # open KF-C13-b: empty field name
         t3 = cm.number({"k": "d", "name": "root", "kids": [_leaf(""), {"k": "d", "name": "a", "kids": [_leaf("")]}]})
         out.append(self._case(t3, [0, 2]))
@@ -144,8 +173,8 @@ class C13(Property):
             hostile = rng.choice([0.2, 0.5, 0.8])
             r = rng.random()
             if r < 0.5:
-                # names the theorem covers (no empty names, no backslash before . or ], no trailing backslash)
-                pools = [cm.DIGITS, cm.PUNCT, cm.PUNCT, cm.BACKSLASH_OK, cm.UNICODE]
+                # names the theorem covers (no empty names, no trailing backslash)
+                pools = [cm.DIGITS, cm.PUNCT, cm.PUNCT, cm.BACKSLASH_OK, cm.BACKSLASH_BAD, cm.UNICODE]
             elif r < 0.8:
                 pools = [cm.DIGITS, cm.PUNCT, cm.BACKSLASH_OK, cm.BACKSLASH_BAD, cm.BACKSLASH_END, cm.UNICODE]
             else:
@@ -153,15 +182,21 @@ class C13(Property):
             depth = rng.choice([1, 2, 2, 3, 3, 4, 5])
             schema = cm.rand_schema(rng, depth, rng.choice(["root", None, "r/", ""]), hostile, pools, top=True)
             tree = cm.number(cm.instantiate(rng, schema, maxlen=rng.choice([2, 3, 4, 12])))
+            init, history = None, None
+            if rng.random() < 0.45:
+                # the tree is reached through a history of list mutations (public List API)
+                final, history = cm.rand_history(rng, tree, rng.choice([1, 1, 2, 3, 4]))
+                if history:
+                    init, tree = tree, final
             nodes = list(cm.preorder(tree))
             if len(nodes) > 60:
                 continue
-            starts = [0] + [rng.choice(nodes)["id"] for _ in range(3)]
-            yield self._case(tree, sorted(set(starts)))
+            starts = [tree["id"]] + [rng.choice(nodes)["id"] for _ in range(3)]
+            yield self._case(tree, sorted(set(starts)), init, history)
 
     # -------------------------------------------------------------- implementation
     def _observe(self, case):
-        root, byid, label = cm.build(case["tree"])
+        root, byid, label = cm.build_case(case)
         fq, found = [], []
         for n in cm.preorder(case["tree"]):
             el = byid[n["id"]]
@@ -187,7 +222,7 @@ class C13(Property):
 
     # -------------------------------------------------------------- oracle
     def oracle(self, case):
-        root, byid, label = cm.build(case["tree"])
+        root, byid, label = cm.build_case(case)
         fails = []
         if root.fq_name() != "/":
             fails.append({"clause": "root-is-slash", "expected": "/", "observed": root.fq_name()})
@@ -258,9 +293,31 @@ class C13(Property):
             t.append("list-in-list")
         if any("sparse" in n for n in nodes):
             t.append("has-sparse-dict")
-        return t
+        hist = case.get("history") or []
+        t.append("history=%d" % len(hist))
+        for op in hist:
+            t.append("listop:%s" % op["op"])
+            if op.get("i", 0) < -1:
+                t.append("listop:negative-index")
+            if len(op["at"]) >= 2:
+                t.append("listop:nested-list")
+        return sorted(set(t))
 
     def shrink_candidates(self, case):
+        if case.get("history"):
+            # drop one operation of the history (re-simulated from the initial tree)
+            h = case["history"]
+            for i in range(len(h)):
+                h2 = h[:i] + h[i + 1:]
+                try:
+                    t = cm.simulate(case["init"], h2)
+                except Exception:  # noqa: BLE001 — the shorter history is not applicable
+                    continue
+                ids = {n["id"] for n in cm.preorder(t)}
+                yield self._case(t, [s for s in case["starts"] if s in ids] or [t["id"]], case["init"], h2)
+            if len(case["starts"]) > 1:
+                yield dict(case, starts=case["starts"][:1])
+            return
         for t in cm.shrink_tree_variants(case["tree"], keep_ids=()):
             ids = {n["id"] for n in cm.preorder(t)}
             yield {"tree": t, "starts": [s for s in case["starts"] if s in ids] or [t["id"]]}
@@ -279,8 +336,11 @@ class C13(Property):
 C13.rule = (
     "random schemas over Dict/List(lists in lists)/DateYYYYMMDD/Array/MultiValue/JoinedString/String, field names "
     "from pools: plain, digits-only (incl. '-1', '007', ' 1', Arabic-Indic), path punctuation ('/', '[', ']', '.', "
-    "'..', 'a/b', '[1:2]', 'x/..'), backslashes (benign, before '.'/']', trailing), non-ASCII/whitespace, empty; 50% "
-    "of trees only use names the theorem covers; every element's fq_name() is evaluated from the root and 3 random "
+    "'..', 'a/b', '[1:2]', 'x/..'), backslashes (inside, before '.'/']', doubled, trailing), non-ASCII/whitespace, empty; 50% "
+    "of trees only use names the theorem covers; 45% of the trees are reached through a history of 1-4 list mutations "
+    "(pop incl. negative indexes, insert, del item/slice incl. extended and negative-step slices, slice assignment, "
+    "reverse, sort, remove, +=, append on random List nodes at any depth, through the public List API; the model sees "
+    "the resulting tree, whose slot names are positional); every element's fq_name() is evaluated from the root and 3 random "
     "elements; non-trivial = tree of >= 3 elements")
 
 PROP = C13()
